@@ -251,7 +251,7 @@ def _check_summaries(prog: Program, res: Result):
         st.env[p] = Rat.atom(p)
     # straight-line locals needed by the result fields (max_eft = max(design.ghe.hp_eft) ...)
     for s in fi.node.body:
-        if isinstance(s, ast.Assign) and len(s.targets) == 1 and isinstance(s.targets[0], ast.Name) and s.targets[0].id in ("max_eft", "min_eft"):
+        if isinstance(s, ast.Assign) and len(s.targets) == 1 and isinstance(s.targets[0], ast.Name) and isinstance(s.value, ast.Call) and attr_chain(s.value.func) in ("max", "min"):
             eng._s_Assign(s, st)
     fields = {}
     for n in ast.walk(fi.node):
@@ -303,7 +303,7 @@ def _check_summaries(prog: Program, res: Result):
     for p in f3.params():
         s3.env[p] = Rat.atom(p)
     for s in f3.node.body:
-        if isinstance(s, ast.Assign) and len(s.targets) == 1 and isinstance(s.targets[0], ast.Name) and s.targets[0].id in ("max_eft", "min_eft"):
+        if isinstance(s, ast.Assign) and len(s.targets) == 1 and isinstance(s.targets[0], ast.Name) and isinstance(s.value, ast.Call) and attr_chain(s.value.func) in ("max", "min"):
             e3._s_Assign(s, s3)
     rows = {}
     for n in ast.walk(f3.node):
